@@ -29,8 +29,8 @@ CLAIMED = {
               "bounds, bounds lie within control bounds (Bernstein convex hull), move translates points/control bounds/bounds and "
               "keeps the Green area, Contour.move's in-place cache patch commutes with reading and every cached representation "
               "equals the fresh computation in every reachable state, control bounds = plain min/max box of the points, reversal "
-              "keeps points and closedness, is an involution, and negates the area (closed contours with an on-curve point, any "
-              "start), setStartPoint is a rotation that keeps area and control bounds (area = cyclic sum over segments), the four "
+              "keeps points, closedness, validity and control bounds, is an involution, and negates the area (every valid contour: "
+              "closed from any start, all-off-curve, open), setStartPoint is a rotation that keeps area and control bounds (area = cyclic sum over segments), the four "
               "margin setters read back / keep the opposite margin / adjust width or height. The model is tied to the code by a differential run on generated outlines and op histories (exact on "
               "integer/dyadic coordinates) and an independent oracle (own UFO segment reading, exact polynomial area, derivative-"
               "root extrema, winding number) evaluated on the implementation's own answers, incl. a float stream with tolerance."),
@@ -38,7 +38,7 @@ CLAIMED = {
         note=("Modelled not verified: fontTools' numeric curve extrema (calcCubicBounds/calcQuadraticBounds) are an oracle parameter "
               "with three stated laws (contains the curve, within the control box, translation-equivariant); IEEE rounding (exact "
               "stream uses dyadic inputs; float stream judged with tolerance); pointInside is cross-checked by the oracle only; "
-              "area negation under reversal is not proved for open and all-off-curve contours (validated only); "
+
               "component caches (C03/F11) are not modelled and base glyphs are not edited after being referenced."),
         technique="Lean 4 proof (convex hull, fold invariants, translation equivariance, list algebra) + model/implementation correspondence",
     ),
